@@ -98,7 +98,13 @@ def check(case: Dict[str, Any]) -> Outcome:
     wire = build_answer(ans)
     if wire is not None:
         schedule.append((T_ANS, wire))
-    res = drive(call, schedule, max_vtime=T + 10)
+    slow = case.get("slow_reader")
+    if slow:
+        # the server reads the initialize request at once but is slow to read what follows
+        # (unbuffered client->server stream, anyio's default capacity)
+        res = drive(call, schedule, max_vtime=T + slow + 10, write_capacity=0, drain_delays={1: T_ANS + slow})
+    else:
+        res = drive(call, schedule, max_vtime=T + 10)
 
     prop = proposed_ref(L, preferred)
     v = ans.get("v") if ans["kind"] == "version" else None
@@ -108,7 +114,7 @@ def check(case: Dict[str, Any]) -> Outcome:
         f"answer:{ans['kind']}" + (":" + ("in-list" if v in L else "not-in-list") if ans["kind"] == "version" else ""),
         "preferred:" + ("none" if not preferred else ("in-list" if preferred in L else "not-in-list")),
         "tracked" if tracked else "untracked",
-    )
+    ) + (("slow-reader",) if case.get("slow_reader") else ())
 
     # ---- the request
     writes = res.written
@@ -214,6 +220,8 @@ def job_enum(col: Collector, seed: int, tier: str, shard: int, nshards: int) -> 
                 if i % nshards != shard:
                     continue
                 case = {"supported": L, "preferred": p, "answer": ans, "pre_notifs": (i // nshards) % 3, "tracked": (i // nshards) % 2 == 0}
+                if (i // nshards) % 7 == 0:
+                    case["slow_reader"] = [0.3, 1.5, 4.0][(i // nshards) % 3]
                 col.record(case, check(case))
     if shard == 0:
         col.exhaustive_parts.append(f"{len(lists)} lists x {len(PREFERRED)} preferred x {len(answers)} answers = {len(lists) * len(PREFERRED) * len(answers)} configurations (tracked/untracked and 0..2 leading notifications rotated)")
@@ -239,7 +247,10 @@ def cases(draw):
         ans = {"kind": "error", "code": draw(st.integers(-33000, 500)), "message": draw(st.sampled_from(["x", "protocol version?", "Unsupported Protocol Version"]))}
     else:
         ans = {"kind": "silence"}
-    return {"supported": L, "preferred": preferred, "answer": ans, "pre_notifs": draw(st.integers(0, 3)), "tracked": draw(st.booleans())}
+    case = {"supported": L, "preferred": preferred, "answer": ans, "pre_notifs": draw(st.integers(0, 3)), "tracked": draw(st.booleans())}
+    if draw(st.integers(0, 3)) == 0:
+        case["slow_reader"] = draw(st.sampled_from([0.3, 0.99, 1.0, 1.5, 4.0]))
+    return case
 
 
 def job_hyp(col: Collector, seed: int, tier: str, shard: int, n: int) -> None:
